@@ -46,7 +46,142 @@ let () =
   reg "fullacc" (function limit :: h :: _ -> full_verdict (ios limit) (bytes_of_hex h) | _ -> raise (Bad_op "fullacc"));
   reg "utf8" (function [h] -> sb (Ref.utf8_valid (bytes_of_hex h)) | _ -> raise (Bad_op "utf8"));
   (* reference get on arbitrary bytes: "a,b" span or "none" *)
-  reg "refget" (function [p; h] ->
-      (match Ref.ref_get (bytes_of_hex h) (path_of_arg p) with
-       | Some (a, b) -> Printf.sprintf "%d,%d" (int_of_nat a) (int_of_nat b)
-       | None -> "none") | _ -> raise (Bad_op "refget"))
+  (* C14 is the soundness direction: a returned span must be the reference one and its prefix valid
+     UTF-8; the implementation may reject more (e.g. it looks one byte past a number): "x||none" *)
+  reg "refget" (function p :: h :: _ ->
+      let bytes = bytes_of_hex h in
+      (match Ref.ref_get bytes (path_of_arg p) with
+       | Some (a, b) when Ref.utf8_valid (take (int_of_nat b) bytes) -> Printf.sprintf "%d,%d||none" (int_of_nat a) (int_of_nat b)
+       | _ -> "none") | _ -> raise (Bad_op "refget"))
+
+(* ---------- canonical dump of a reference tree (same format as harness/src/dump.rs) ---------- *)
+let dump_num (lit : BinNums.coq_N list) : string =
+  match Num.classify lit with
+  | Num.CU64 v -> "u" ^ hex_of_z v
+  | Num.CI64 v -> "i" ^ hex_of_z v
+  | Num.CF64 b -> let h = hex_of_z b in "f" ^ String.make (16 - String.length h) '0' ^ h
+  | Num.CInf -> "inf"
+
+let rec dump_jv ?(raw = false) (b : Buffer.t) (v : Ref.jv) : unit =
+  match v with
+  | Ref.JNull -> Buffer.add_char b 'n'
+  | Ref.JBool true -> Buffer.add_char b 't'
+  | Ref.JBool false -> Buffer.add_char b 'f'
+  | Ref.JNum lit -> if raw then (Buffer.add_char b 'r'; Buffer.add_string b (hex_of_bytes lit)) else Buffer.add_string b (dump_num lit)
+  | Ref.JStr (d, _) -> Buffer.add_char b 's'; Buffer.add_string b (hex_of_bytes d)
+  | Ref.JArr xs ->
+    Buffer.add_char b '[';
+    Stdlib.List.iteri (fun i ((_, _), x) -> if i > 0 then Buffer.add_char b ','; dump_jv ~raw b x) xs;
+    Buffer.add_char b ']'
+  | Ref.JObj ms ->
+    Buffer.add_char b '{';
+    Stdlib.List.iteri (fun i (((k, _), _), x) -> if i > 0 then Buffer.add_char b ','; Buffer.add_string b (hex_of_bytes k); Buffer.add_char b ':'; dump_jv ~raw b x) ms;
+    Buffer.add_char b '}'
+let dump_string ?(raw = false) v = let b = Buffer.create 256 in dump_jv ~raw b v; Buffer.contents b
+
+let rec drop n l = if n = 0 then l else match l with [] -> [] | _ :: r -> drop (n - 1) r
+let sub_bytes l a b = take (b - a) (drop a l)
+
+(* lookup on a well-formed text *)
+let lookup_text bytes path =
+  match Ref.ref_text false bytes with
+  | None -> None
+  | Some ((v, a), b) -> Some (Ref.lookup v a b path)
+
+let () =
+  reg "dump" (function h :: _ ->
+      (match Ref.ref_text true (bytes_of_hex h) with Some ((v, _), _) -> dump_string v | None -> "reject") | _ -> raise (Bad_op "dump"));
+  reg "dumpraw" (function h :: _ ->
+      (match Ref.ref_text true (bytes_of_hex h) with Some ((v, _), _) -> dump_string ~raw:true v | None -> "reject") | _ -> raise (Bad_op "dumpraw"));
+  (* get on a well-formed text: ok:a,b | notfound | type | malformed *)
+  reg "get" (function p :: h :: _ ->
+      (match lookup_text (bytes_of_hex h) (path_of_arg p) with
+       | None -> "malformed"
+       | Some (Ref.Found (a, b, _)) -> Printf.sprintf "ok:%d,%d" (int_of_nat a) (int_of_nat b)
+       | Some Ref.Missing -> "err" | Some Ref.WrongKind -> "err") | _ -> raise (Bad_op "get"));
+  reg "getdump" (function p :: h :: _ ->
+      (match lookup_text (bytes_of_hex h) (path_of_arg p) with
+       | None -> "malformed"
+       | Some (Ref.Found (_, _, v)) -> "ok:" ^ dump_string v
+       | Some _ -> "none") | _ -> raise (Bad_op "getdump"));
+  reg "gettext" (function p :: h :: _ ->
+      let bytes = bytes_of_hex h in
+      (match lookup_text bytes (path_of_arg p) with
+       | None -> "malformed"
+       | Some (Ref.Found (a, b, _)) -> "ok:" ^ hex_of_bytes (sub_bytes bytes (int_of_nat a) (int_of_nat b))
+       | Some _ -> "none") | _ -> raise (Bad_op "gettext"));
+  reg "refgettext" (function p :: h :: _ ->
+      let bytes = bytes_of_hex h in
+      (match Ref.ref_get bytes (path_of_arg p) with
+       | Some (a, b) when Ref.utf8_valid (take (int_of_nat b) bytes) -> "ok:" ^ hex_of_bytes (sub_bytes bytes (int_of_nat a) (int_of_nat b)) ^ "||none"
+       | _ -> "none") | _ -> raise (Bad_op "refgettext"));
+  reg "hasdup" (function h :: _ ->
+      (match Ref.ref_text false (bytes_of_hex h) with Some ((v, _), _) -> sb (Ref.has_dup_keys (nat_of_int 1000) v) | None -> "malformed") | _ -> raise (Bad_op "hasdup"))
+
+(* ---------- C12: iterator transcripts ---------- *)
+let items_string ?(text = None) ~with_key (items : Ref.item list) : string =
+  let sp a b = match text with
+    | None -> Printf.sprintf "%d,%d" (int_of_nat a) (int_of_nat b)
+    | Some bytes -> "=" ^ hex_of_bytes (sub_bytes bytes (int_of_nat a) (int_of_nat b)) in
+  let parts = Stdlib.List.map (function
+      | Ref.IOk (k, a, b) -> if with_key then Printf.sprintf "%s:%s" (hex_of_bytes k) (sp a b) else sp a b
+      | Ref.IErr -> "err" | Ref.IEnd -> "end") items in
+  String.concat ";" (parts @ ["end"; "end"; "end"])
+
+(* ---------- C11: get_many verdicts ---------- *)
+let split_on c s = if s = "" then [] else String.split_on_char c s
+
+(* impl result: "err" | "ok:slot;slot;..." with slot = "a,b" | "none" *)
+let many_verdict ~wellformed paths_arg h impl =
+  let bytes = bytes_of_hex h in
+  let paths = Stdlib.List.map path_of_arg (split_on ';' paths_arg) in
+  let expect p =
+    if wellformed then
+      (match lookup_text bytes p with
+       | Some (Ref.Found (a, b, _)) -> `Span (int_of_nat a, int_of_nat b)
+       | Some Ref.Missing -> `Missing | Some Ref.WrongKind -> `Wrong | None -> `Wrong)
+    else
+      (match Ref.ref_get bytes p with Some (a, b) -> `Span (int_of_nat a, int_of_nat b) | None -> `Wrong) in
+  let exps = Stdlib.List.map expect paths in
+  let all_found = Stdlib.List.for_all (function `Span _ -> true | _ -> false) exps in
+  if String.length impl >= 5 && String.sub impl 0 5 = "panic" then "panic"
+  else if impl = "err" then (if wellformed && all_found then "bad:error although every path resolves" else "ok")
+  else if String.length impl >= 3 && String.sub impl 0 3 = "ok:" then begin
+    let slots = split_on ';' (String.sub impl 3 (String.length impl - 3)) in
+    if Stdlib.List.length slots <> Stdlib.List.length paths then "bad:slot count"
+    else begin
+      let bad = ref "" in
+      Stdlib.List.iteri (fun i slot ->
+          let e = Stdlib.List.nth exps i in
+          match slot, e with
+          | "none", `Span _ -> if wellformed then bad := Printf.sprintf "bad:slot %d empty although the path resolves" i
+          | "none", _ -> ()
+          | s, `Span (a, b) -> if s <> Printf.sprintf "%d,%d" a b then bad := Printf.sprintf "bad:slot %d holds %s, get finds %d,%d" i s a b
+          | s, _ -> bad := Printf.sprintf "bad:slot %d filled (%s) although the path does not resolve" i s) slots;
+      if !bad = "" then "ok" else !bad
+    end end
+  else "bad:unparsable result"
+
+let sorted_dump_string (v : Ref.jv) : string =
+  let rec go v =
+    match v with
+    | Ref.JArr xs -> "[" ^ String.concat "," (Stdlib.List.map (fun ((_, _), x) -> go x) xs) ^ "]"
+    | Ref.JObj ms ->
+      let l = Stdlib.List.map (fun (((k, _), _), x) -> (hex_of_bytes k, go x)) ms in
+      let l = Stdlib.List.sort compare l in
+      "{" ^ String.concat "," (Stdlib.List.map (fun (k, x) -> k ^ ":" ^ x) l) ^ "}"
+    | _ -> dump_string v in
+  go v
+
+let () =
+  reg "iterarr" (function h :: _ -> items_string ~with_key:false (Ref.ref_array_iter (bytes_of_hex h)) | _ -> raise (Bad_op "iterarr"));
+  reg "iterobj" (function h :: _ -> items_string ~with_key:true (Ref.ref_object_iter (bytes_of_hex h)) | _ -> raise (Bad_op "iterobj"));
+  reg "iterarr_text" (function h :: _ -> let b = bytes_of_hex h in items_string ~text:(Some b) ~with_key:false (Ref.ref_array_iter b) | _ -> raise (Bad_op "iterarr_text"));
+  reg "iterobj_text" (function h :: _ -> let b = bytes_of_hex h in items_string ~text:(Some b) ~with_key:true (Ref.ref_object_iter b) | _ -> raise (Bad_op "iterobj_text"));
+  reg "manyok" (function p :: h :: impl :: _ -> many_verdict ~wellformed:true p h impl | _ -> raise (Bad_op "manyok"));
+  reg "manysound" (function p :: h :: impl :: _ -> many_verdict ~wellformed:false p h impl | _ -> raise (Bad_op "manysound"));
+  reg "schema" (function sh :: dh :: _ ->
+      (match Ref.ref_text true (bytes_of_hex sh), Ref.ref_text true (bytes_of_hex dh) with
+       | Some ((s, _), _), Some ((d, _), _) ->
+         (match s with Ref.JObj _ -> "ok:" ^ sorted_dump_string (Ref.merge (nat_of_int 1000) s d) | _ -> "err")
+       | _ -> "err") | _ -> raise (Bad_op "schema"))
